@@ -486,35 +486,32 @@ theorem export_tabsWF : ∀ f : Nat,
           exact ⟨ih.1 _ _ _ hb ht, ih.2 _ _ _ _ hb hrest⟩
 
 mutual
-theorem bal_importTree : ∀ (t : Tree) (m : Mem), Bal m → TabsWF t → Bal (importTree m t).1
-  | .tag name attrs ks, m, hb, hw => by
+theorem bal_importTree : ∀ (t : Tree) (m m' : Mem) (id : Nat), Bal m → TabsWF t →
+    importTree m t = .ok (m', id) → Bal m'
+  | .tag name attrs ks, m, m', id, hb, hw, h => by
     simp only [TabsWF] at hw
-    simp only [importTree, Mem.setChildren]
-    refine Bal.put_same ?_ rfl rfl rfl
-    exact bal_importKids ks _ _ _ (hb.push rfl hw.1) hw.2
-  | .text d ks, m, hb, hw => by
+    simp only [importTree] at h
+    exact bal_importKids ks _ _ _ _ (hb.push rfl hw.1) hw.2 h
+  | .text d ks, m, m', id, hb, hw, h => by
     simp only [TabsWF] at hw
-    simp only [importTree, Mem.setChildren]
-    refine Bal.put_same ?_ rfl rfl rfl
-    exact bal_importKids ks _ _ _ (hb.push rfl (by intro t h; cases h)) hw
-  | .unknown ks, m, hb, hw => by
+    simp only [importTree] at h
+    exact bal_importKids ks _ _ _ _ (hb.push rfl (by intro t h; cases h)) hw h
+  | .unknown ks, m, m', id, hb, hw, h => by
     simp only [TabsWF] at hw
-    simp only [importTree, Mem.setChildren]
-    refine Bal.put_same ?_ rfl rfl rfl
-    exact bal_importKids ks _ _ _ (hb.push rfl (by intro t h; cases h)) hw
-theorem bal_importKids : ∀ (ks : List Tree) (m : Mem) (p : Nat) (prev : Option Nat), Bal m → TabsWFKids ks →
-    Bal (importKids m p ks prev).1
-  | [], m, _, _, hb, _ => by simpa [importKids] using hb
-  | k :: ks, m, p, prev, hb, hw => by
+    simp only [importTree] at h
+    exact bal_importKids ks _ _ _ _ (hb.push rfl (by intro t h; cases h)) hw h
+theorem bal_importKids : ∀ (ks : List Tree) (m m' : Mem) (p id : Nat), Bal m → TabsWFKids ks →
+    importKids m p ks = .ok (m', id) → Bal m'
+  | [], m, m', _, _, hb, _, h => by
+    simp only [importKids] at h; rw [pure_ok] at h; cases h; exact hb
+  | k :: ks, m, m', p, id, hb, hw, h => by
     simp only [TabsWFKids] at hw
-    simp only [importKids]
-    apply bal_importKids ks _ _ _ _ hw.2
-    have h1 : Bal (importTree m k).1 := bal_importTree k m hb hw.1
-    cases prev with
-    | none => exact Bal.put_same h1 rfl rfl rfl
-    | some q =>
-      refine Bal.put_same ?_ rfl rfl rfl
-      exact Bal.put_same h1 rfl rfl rfl
+    simp only [importKids] at h
+    rw [bind_ok] at h
+    obtain ⟨⟨m1, c⟩, h1, h⟩ := h
+    rw [bind_ok] at h
+    obtain ⟨⟨m2, rc⟩, h2, h⟩ := h
+    exact bal_importKids ks m2 m' p id (bal_addChildEx (bal_importTree k m m1 c hb hw.1 h1) h2) hw.2 h
 end
 
 theorem bal_copy {m m' : Mem} {s : Nat} {r : Option Nat} (hb : Bal m) (h : copy m s = .ok (m', r)) : Bal m' := by
@@ -524,15 +521,24 @@ theorem bal_copy {m m' : Mem} {s : Nat} {r : Option Nat} (hb : Bal m) (h : copy 
   have hw := (export_tabsWF _).1 _ _ _ hb ht
   obtain ⟨t', hc, _, hw'⟩ := Stanza.copy_spec t hw
   simp only [hc] at h
+  rw [bind_ok] at h
+  obtain ⟨⟨m1, id⟩, h1, h⟩ := h
   rw [pure_ok] at h
   cases h
-  exact bal_importTree t' m hb hw'
+  exact bal_importTree t' m _ _ hb hw' h1
 
-theorem bal_fromString {m : Mem} {b : Bytes} (hb : Bal m) : Bal (fromString m b).1 := by
-  unfold fromString
+theorem bal_fromString {m m' : Mem} {b : Bytes} {r : Option Nat} (hb : Bal m)
+    (h : fromString m b = .ok (m', r)) : Bal m' := by
+  unfold fromString at h
   cases hf : Stanza.fromString b with
-  | none => exact hb
-  | some t => exact bal_importTree t m hb (Stanza.tabsWF_fromString b t hf)
+  | none => simp only [hf] at h; rw [pure_ok] at h; cases h; exact hb
+  | some t =>
+    simp only [hf] at h
+    rw [bind_ok] at h
+    obtain ⟨⟨m1, id⟩, h1, h⟩ := h
+    rw [pure_ok] at h
+    cases h
+    exact bal_importTree t m _ _ hb (Stanza.tabsWF_fromString b t hf) h1
 
 theorem bal_reply {m m' : Mem} {s : Nat} {r : Option Nat} (hb : Bal m) (h : reply m s = .ok (m', r)) : Bal m' := by
   unfold reply at h
@@ -544,10 +550,12 @@ theorem bal_reply {m m' : Mem} {s : Nat} {r : Option Nat} (hb : Bal m) (h : repl
   | none => simp only [hr] at h; rw [pure_ok] at h; cases h; exact hb
   | some t =>
     simp only [hr] at h
+    rw [bind_ok] at h
+    obtain ⟨⟨m1, id⟩, h1, h⟩ := h
     rw [pure_ok] at h
     cases h
     have hw : TabsWF (mkTree (m.get s) []) := tabsWF_mkTree _ _ (hb.tabs s) (by simp [TabsWFKids])
-    exact bal_importTree t m hb (Stanza.tabsWF_reply _ _ hw hr)
+    exact bal_importTree t m _ _ hb (Stanza.tabsWF_reply _ _ hw hr) h1
 
 
 theorem bal_replyError {m m' : Mem} {s : Nat} {et cond tx : Option Bytes} {r : Option Nat} (hb : Bal m)
@@ -740,7 +748,7 @@ theorem bal_step {st st' : St} {op : Op} {out : Out} (hb : Bal st.mem) (h : step
     | exact bal_reply hb (by assumption)
     | exact bal_replyError hb (by assumption)
     | exact bal_errorNew hb (by assumption)
-    | exact bal_fromString hb
+    | exact bal_fromString hb (by assumption)
     | exact bal_releaseAll _ _ _ hb (by assumption)
 
 theorem bal_exec : ∀ (ops : List Op) (st st' : St), Bal st.mem → exec st ops = .ok st' → Bal st'.mem
